@@ -524,6 +524,9 @@ class LazyStackedTensorDict(TensorDictBase):
         return all(td._has_names() for td in self.tensordicts)
 
     def _erase_names(self):
+        if self._is_locked:
+            # reached from the names setter of a holder, under lock
+            self._erase_cache_up()
         self._td_dim_name = None
         for td in self.tensordicts:
             td._erase_names()
